@@ -353,6 +353,11 @@ pub fn sibling_pairs() -> Vec<E> {
                 out.push(E::and(E::not(a.clone()), b.clone()));
                 out.push(E::or(a.clone(), E::not(b.clone())));
                 out.push(E::not(E::list(a.clone(), b.clone())));
+                // both negated, under every operator (De Morgan: a fold of the two must swap and/or)
+                out.push(E::and(E::not(a.clone()), E::not(b.clone())));
+                out.push(E::or(E::not(a.clone()), E::not(b.clone())));
+                out.push(E::list(E::not(a.clone()), E::not(b.clone())));
+                out.push(E::not(E::or(E::not(a.clone()), b.clone())));
                 let c = third[(i + j) % third.len()].clone();
                 out.push(E::and(E::list(a.clone(), b.clone()), c.clone()));
                 out.push(E::or(E::and(c.clone(), a.clone()), b.clone()));
